@@ -54,7 +54,7 @@ PROPERTIES = {
         "explanation": "proved (relative to numpy.interp, uninterpreted): the one-dimensional path -- one call numpy.interp(new, xs, ys, left, right) on the operand's (label, value) pairs sorted ascending, result on exactly the new axis, metadata, operand untouched; bounded stand-in: the N-d path (positions, floor / ceil, fraction times difference: nonlinear real arithmetic), interp_like and Dataset.interp_axis, compared fibre by fibre with numpy.interp on the real code.",
     },
     "C14": {
-        "contracts": [dataset.DatasetTake, dataset.DatasetTakeAxis, dataset.DatasetScalarOp, dataset.DatasetReduce, dataset.DatasetJoin, dataset.DatasetReindexAxis, dsops.DatasetOps],
+        "contracts": [dataset.DatasetTake, dataset.DatasetTakeAxis, dataset.DatasetScalarOp, dataset.DatasetReduce, dataset.DatasetJoin, dataset.DatasetReindexAxis, dataset.DatasetDatasetOp, dsops.DatasetOps],
         "level": "other",
         "min_obligations": 3500,
         "min_bounded_evaluations": 2000,
